@@ -87,6 +87,8 @@ def build_smt2(q, extra_constraints=(), want_model=True):
     s.add(negs[0] if len(negs) == 1 else z3.Or(*negs))
     body = s.to_smt2()
     body = re.sub(r'^\(set-info :status [a-z]+\)\n', '', body, flags=re.M)
+    # z3 prints its internal "divisor known non-zero / hardware semantics" operators; they are the SMT-LIB ones
+    body = re.sub(r'\b(bvudiv|bvurem|bvsdiv|bvsrem|bvsmod)_i\b', r'\1', body)
     has_bv = '(_ BitVec' in body or '(_ bv' in body
     has_real = ' Real' in body
     has_fp = 'FloatingPoint' in body or 'Float64' in body or 'Float32' in body or 'RoundingMode' in body
